@@ -167,7 +167,7 @@ B('A1-indexgo-recache-unfrozen', ['C01', 'C09'], 'index.py', '_IndexGOMixin._upd
   'self._labels = np.array(self._labels_mutable, dtype=self._labels_mutable_dtype)', 'A-R1', '_update_array_cache')
 B('A1-raw-ctor-new-site', ['C01', 'C03'], 'type_blocks.py', 'TypeBlocks.transpose',
   'return self.from_blocks(array)', 'a2 = array.copy()\n        return self.__class__(blocks=[a2], dtypes=[a2.dtype] * a2.shape[1], index=[(0, i) for i in range(a2.shape[1])], shape=a2.shape)',
-  'A-R1', 'TypeBlocks.transpose')
+  ('A-R1', 'I.typeblocks-raw'), 'TypeBlocks.transpose')
 B('A3-assign-into-view', ['C01', 'C08'], 'type_blocks.py', 'TypeBlocks._assign_from_bloc_by_unit',
   'assigned = block.copy()', 'assigned = block', 'A-R3', '_assign_from_bloc_by_unit')
 B('A3-index-fillna-inplace', ['C01', 'C08'], 'index.py', 'Index.fillna',
@@ -424,7 +424,7 @@ B('F3-bool-guard-dropped', ['C07'], 'util.py', 'resolve_dtype',
   '            or dt1_is_bool or dt2_is_bool\n', '', 'F3', 'resolve_dtype')
 B('F3-str-family-one-sided', ['C07'], 'util.py', 'resolve_dtype',
   'if dt1_is_str and dt2_is_str:', 'if dt1_is_str or dt2_is_str:', 'F3', 'resolve_dtype')
-B('F3-row-dtype-not-widened', ['C07', 'C03'], 'type_blocks.py', 'TypeBlocks.append',
+B('F3-row-dtype-not-widened', ['C07'], 'type_blocks.py', 'TypeBlocks.append',
   'self._row_dtype = DTYPE_OBJECT', 'pass', 'F3', 'TypeBlocks.append')
 B('F3-str-nonstr-not-object', ['C07'], 'util.py', 'prepare_iter_for_array',
   'if has_tuple or has_enum or (has_str and has_non_str):', 'if has_tuple or has_enum:', 'F3', 'prepare_iter_for_array')
@@ -460,5 +460,28 @@ B('P-zip-read-paths-diverge', ['C18', 'C17'], 'store_zip.py', '_StoreZip.read_ma
 N('P-rename-labels-list', ['C18'], 'batch.py', 'Batch.apply',
   "        labels = []\n        def arg_gen() -> tp.Iterator[tp.Tuple[FrameOrSeries, AnyCallable]]:\n            for label, frame in self._items:\n                labels.append(label)\n                yield frame, func\n\n        return self._apply_pool(labels, arg_gen(), call_func)",
   "        keys = []\n        def arg_gen() -> tp.Iterator[tp.Tuple[FrameOrSeries, AnyCallable]]:\n            for label, frame in self._items:\n                keys.append(label)\n                yield frame, func\n\n        return self._apply_pool(keys, arg_gen(), call_func)")
+
+# ---------------------------------------------------------------------------------- blocks (C03)
+B('K-raw-ctor-in-round', ['C03', 'C01'], 'type_blocks.py', 'TypeBlocks.__round__',
+  "        return self.from_blocks(\n                self._ufunc_blocks(column_key=NULL_SLICE, func=func),\n                shape_reference=self._shape,\n                )",
+  "        return self.__class__(\n                blocks=list(self._ufunc_blocks(column_key=NULL_SLICE, func=func)),\n                dtypes=self._dtypes.copy(),\n                index=self._index.copy(),\n                shape=self._shape\n                )", 'I.typeblocks-raw', '__round__')
+B('K-copy-shares-directory', ['C03', 'C09'], 'type_blocks.py', 'TypeBlocks.__copy__',
+  'dtypes=self._dtypes.copy(), # list', 'dtypes=self._dtypes,', 'I.typeblocks-raw', '__copy__')
+B('K-from-blocks-skip-dtypes', ['C03'], 'type_blocks.py', 'TypeBlocks.from_blocks',
+  '                    index.append((block_count, i))\n                    dtypes.append(block.dtype)', '                    index.append((block_count, i))', 'D1.from-blocks', 'from_blocks')
+B('K-from-blocks-counter-early', ['C03'], 'type_blocks.py', 'TypeBlocks.from_blocks',
+  '                blocks.append(immutable_filter(block))\n', '                blocks.append(immutable_filter(block))\n                block_count += 1\n', 'D1.from-blocks', 'from_blocks')
+B('K-from-blocks-no-row-check', ['C03'], 'type_blocks.py', 'TypeBlocks.from_blocks',
+  "                if row_count is not None and r != row_count: #type: ignore [unreachable]\n                    raise ErrorInitTypeBlocks(f'mismatched row count: {r}: {row_count}')\n                else: # assign on first\n                    row_count = r",
+  "                row_count = r", 'D1.from-blocks', 'from_blocks')
+B('K-frame-init-no-column-check', ['C03'], 'frame.py', 'Frame.__init__',
+  "        if self._blocks.shape[1] != col_count:\n            raise ErrorInitFrame(\n                f'Columns has incorrect size (got {self._blocks.shape[1]}, expected {col_count})'\n                )", "        pass", 'I.final-shape', 'Frame.__init__')
+B('K-frame-init-early-return', ['C03'], 'frame.py', 'Frame.__init__',
+  "        if blocks_constructor:\n            # if we have a blocks_constructor if is because data remained FRAME_INITIALIZER_DEFAULT\n            blocks_constructor((row_count, col_count))",
+  "        if blocks_constructor:\n            blocks_constructor((row_count, col_count))\n            return", 'I.final-shape', 'Frame.__init__')
+B('K-series-init-no-size-check', ['C03'], 'series.py', 'Series.__init__',
+  "        if value_count != index_count:", "        if False:", 'I.final-shape', 'Series.__init__')
+N('K-copy-list-spelling', ['C03'], 'type_blocks.py', 'TypeBlocks.__copy__',
+  'blocks=[b for b in self._blocks],', 'blocks=list(self._blocks),')
 
 VARIANTS = V
